@@ -370,3 +370,17 @@ package level
 //@   ensures err == nil ==> all(k, 0, secs, res.Sections[secidx(c, k)].BlockCount == nonair_count(base(res.Sections[secidx(c, k)].States)))   [@value]
 //@   ensures err == nil ==> bswf(res.HeightMaps.MotionBlocking)                                                     [@wf]
 //@   modifies nothing                                                                [@frame]
+
+// ---------------------------------------------------------------- Chunk.ReadFrom (C08: whole chunks, height maps)
+//
+// The tuple decode (NBT height maps, byte array, block entities, light data) and PutData (the
+// sections) are calls of unknown effect here; what is decided is that the code between them
+// cannot panic: the peer-supplied height maps reach NewBitStorage only with the right length.
+// 'stable': the tuple decode receives no pointer through which c.Sections could be changed.
+//@ func (*Chunk).PutData(c; data) (err)
+//@   mayalias c, data
+//@   trusted
+
+//@ func (*Chunk).ReadFrom(c; r) (n, err)
+//@   stable c.Sections
+//@   requires len(c.Sections) < 1<<20
